@@ -477,11 +477,19 @@ class Ctx:
                                       "sha1": hashlib.sha1(text.encode()).hexdigest()[:12]}
                     if bridge not in bridges:
                         bridges.append(bridge)
-                except (cxx2lean.Refuse, OSError) as ex:
-                    rec[spec_name] = {"generated": rel, "refused": str(ex), "bridge": bridge}
-                    self.violation("translate/cxx2lean.py (spec %s) refuses the current source: %s — the regenerated model is stale, so "
-                                   "the bridge theorems of %s say nothing about this tree" % (spec_name, ex, bridge),
+                except cxx2lean.AssumptionBroken as ex:
+                    # a fact the hand-written model rests on (constant, enumerator, class / macro shape) changed in the source
+                    rec[spec_name] = {"generated": rel, "assumption_broken": str(ex), "bridge": bridge}
+                    self.violation("a source fact the model of spec %s depends on no longer holds: %s — the bridge theorems of %s say nothing "
+                                   "about this tree" % (spec_name, ex, bridge),
                                    {"kind": "tie-broken", "translator": "cxx2lean.py", "spec": spec_name, "detail": str(ex)}, nofail=True)
+                except (cxx2lean.Refuse, OSError) as ex:
+                    # the translator cannot read the current text of these functions (a construct outside its fragment, a function
+                    # moved or renamed): for this run the model is tied to the code by the correspondence streams alone — the second
+                    # of the two admissible ties — and the bridge theorems of this spec are not counted as obligations
+                    rec[spec_name] = {"generated": rel, "refused": str(ex), "bridge": bridge,
+                                      "tie_this_run": "correspondence streams only (translator refused; no bridge obligations counted)"}
+                    log("translator (spec %s) refuses the current source: %s -- falling back to the correspondence tie for this run" % (spec_name, ex))
             proved = self.prove(list(prop_modules) + bridges, extra_targets=extra_targets, extra_theorems=extra_theorems)
         self.cov["translator"] = rec
         return proved
